@@ -157,29 +157,33 @@ The heart is `RT.gpx_node`: Pratt parsing inverts the printer's minimal-parenthe
 parentheses iff its operator's precedence is below the context's `ExpressionPrecedence`; right operands are printed
 one level up), proved by induction on the tree over the generated precedence and registration tables.
 
-INSIDE the fragment (`PrintTokens.fragN` / `fragS`, decidable, per print mode):
-  * expressions: identifiers; integer, float, string and boolean literals; `break` / `continue`; the seven prefix operators
+INSIDE the fragment (`PrintTokens.fragN` / `fragS`, decidable, per print mode) — every node kind of the language except comments:
+  * expressions: identifiers and `..`; integer, float, string and boolean literals; `break` / `continue`; the seven prefix operators
     `! - + ++ -- ~ ^`; postfix `x++` / `x--`; all 21 binary operators registered with parseInfixExpression
-    (`= := || && : == != < <= > >= + - | ^ * % & << >> /`, hence slices `a[i:j]`); calls `f(a, b)`; the builtins `len first rest
-    print println log error catch quote unquote del` with their argument lists; index `a[i]` and `a.b` / `a.(e)` / `(1).b` (with the
-    printer's parentheses around non-single-token and number operands of a dot); array literals; function literals
-    `func name(a, b, ..) { … }` (named or not, variadic or not); `for cond { … }`; `if cond { … }`, `… else { … }` and
-    `… else if …` chains;
+    (`= := || && : == != < <= > >= + - | ^ * % & << >> /`, hence slices `a[i:j]`); the open-ended slice `a[n:]`; calls `f(a, b)`;
+    the builtins `len first rest print println log error catch quote unquote del` with their argument lists; index `a[i]` and
+    `a.b` / `a.(e)` / `(1).b` (with the printer's parentheses around non-single-token and number operands of a dot); array
+    literals; map literals `{k: v, …}`; function literals `func name(a, b, ..) { … }` (named or not, variadic or not); lambdas
+    `x => { … }`, `(a, b, ..) => { … }`, `() => { … }` (with the printer's parentheses in operand position); macros
+    `macro(a, b) { … }`; `for cond { … }`; `if cond { … }`, `… else { … }` and `… else if …` chains;
   * statement lists (a program, and every block): expression statements and `return e`; a bare `return` only as the last
     statement; in NORMAL mode without all-parens no statement but the first of its list starts with `-`, `+`, `^`, `++`, `--`;
-  * trees need NOT come from the parser (any nesting, e.g. `(a + b) * c`, `-(a * b)`, `(a = b)[c]`, `if (if a {b}) {c}`).
+  * trees need NOT come from the parser (any nesting, e.g. `(a + b) * c`, `-(a * b)`, `(a = b)[c]`, `if (if a {b}) {c}`, `(x => {x})(1)`).
 
-OUTSIDE (not covered): lambdas `x => e`, map literals, macros, `..` as an expression, the open-ended slice `a[n:]`, comments;
-line mode (EOL end marker).
+OUTSIDE (not covered): comments (any position); `..++`; an open-ended `n:` that is not directly the index of `a[…]`
+(`a[b || c:]` parses as `b || (c:)`); line mode (EOL end marker).
 Recorded finding classes that show the FULL statement (`Statement`) is false of the code, all outside the fragment:
   * repeated-associative-operator-on-the-right (`a + (b + c)` printed `a + b + c`): excluded by `fragN` on `.infix`
     (`!sameAssociativeOperator`), see `outside_fragment_assoc`;
   * statement-starts-with-prefix-operator (normal mode): excluded by `fragS`, see `outside_fragment_stmt`
     (compact mode prints such a statement in parentheses and IS covered);
+  * dotdot-after-dot (`a.(..)` printed `a...`, read back as `a`, `..`, `.`): excluded by `fragN` on `.index` (`!isDotDot`);
+    FOUND by the `printtokens` suite while tying `progToks` to the code — at the token level the theorem would hold for it,
+    the lexer is what breaks;
   * comment-inside-expression, unclosed-block-comment-ending-in-star-slash: comments are not in the fragment;
-  * illegal-token-as-parameter: `paramsOK` admits identifiers and `..` only.
+  * illegal-token-as-parameter: `paramsOK` / `lambdaParamsOK` admit identifiers and `..` only.
 The link "lexing the printed bytes gives `progToks`" is not a theorem: it is checked on every case of the `printtokens`
-suite (real printer, real lexer; ~2.4·10^4 in-fragment programs per quick run, 4 modes each). -/
+suite (real printer, real lexer; ~2.4·10^4 in-fragment programs per quick run, 4 modes each; ~3·10^5 thorough). -/
 theorem roundtrip_partial (compact allParens : Bool) (prog : NList) (hfrag : fragProg compact allParens prog = true)
     (s : TokStream) (hs : s.toks.map key = progKeys compact allParens prog) :
     ∃ F, ∀ fuel, F ≤ fuel → parseProgram s fuel = .ok { program := prog, errors := 0, cont := false } :=
@@ -197,16 +201,16 @@ def PrintLex (lex : Bytes → TokStream) (tbl : Nat → Bool) : Prop :=
   ∀ compact prog, fragProg compact false prog = true →
     ∃ out, printProgram tbl prog compact false = .ok out ∧ (lex out).toks.map key = progKeys compact false prog
 
-/-- `Statement` for the programs of the fragment, relative to `PrintLex` (same shape as `StatementAt`; the re-parsed
-program is EQUAL to the original, which is stronger than `sameTree`) -/
+/-- `Statement` restricted to the programs of the fragment, relative to `PrintLex`: the shape of `StatementAt`, with the
+fuel of the second parse chosen large enough (the re-parsed program is EQUAL to the original, which is stronger than `sameTree`) -/
 theorem roundtrip_partial_lex (lex : Bytes → TokStream) (tbl : Nat → Bool) (hlex : PrintLex lex tbl)
     (src : Bytes) (fuel : Nat) (prog : NList) (_hp : valid (parseProgram (lex src) fuel) = some prog)
     (compact : Bool) (hfrag : fragProg compact false prog = true) :
-    ∃ out, printProgram tbl prog compact false = .ok out ∧
-      ∃ F, ∀ fuel', F ≤ fuel' → valid (parseProgram (lex out) fuel') = some prog ∧ sameTree compact prog prog := by
+    ∃ out prog', printProgram tbl prog compact false = .ok out ∧
+      (∃ F, ∀ fuel', F ≤ fuel' → valid (parseProgram (lex out) fuel') = some prog') ∧ sameTree compact prog' prog := by
   obtain ⟨out, hout, hk⟩ := hlex compact prog hfrag
   obtain ⟨F, hF⟩ := roundtrip_partial compact false prog hfrag (lex out) hk
-  exact ⟨out, hout, F, fun fuel' h => ⟨by rw [hF fuel' h]; rfl, rfl⟩⟩
+  exact ⟨out, prog, hout, ⟨F, fun fuel' h => by rw [hF fuel' h]; rfl⟩, rfl⟩
 
 /-! ### non-vacuity and the boundary of the fragment -/
 
@@ -245,6 +249,31 @@ def exFunc : NList :=
         (some [some (.builtin ⟨.PRINT, [112, 114, 105, 110, 116]⟩ [some (.ident ⟨.IDENT, [97]⟩)])])),
       some (.ret ⟨.RETURN, [114, 101, 116, 117, 114, 110]⟩ none)])
     true false)]
+
+/-- `m = {"k": x => {x + 1}, 2: (a, b) => {a[b:]}}` then `m.k(3)` -/
+def exMap : NList :=
+  [some (.infix ⟨.ASSIGN, [61]⟩ (some (.ident ⟨.IDENT, [109]⟩))
+     (some (.mapLit ⟨.LBRACE, [123]⟩
+       [some (.strLit ⟨.STRING, [107]⟩),
+        some (.func ⟨.LAMBDA, [61, 62]⟩ none [some (.ident ⟨.IDENT, [120]⟩)]
+          (some [some (.infix ⟨.PLUS, [43]⟩ (some (.ident ⟨.IDENT, [120]⟩)) (some (.intLit ⟨.INT, [49]⟩)))]) false true),
+        some (.intLit ⟨.INT, [50]⟩),
+        some (.func ⟨.LAMBDA, [61, 62]⟩ none [some (.ident ⟨.IDENT, [97]⟩), some (.ident ⟨.IDENT, [98]⟩)]
+          (some [some (.index ⟨.LBRACKET, [91]⟩ (some (.ident ⟨.IDENT, [97]⟩))
+            (some (.infix ⟨.COLON, [58]⟩ (some (.ident ⟨.IDENT, [98]⟩)) none)))]) false true)]))),
+   some (.call ⟨.LPAREN, [40]⟩ (some (.index ⟨.DOT, [46]⟩ (some (.ident ⟨.IDENT, [109]⟩)) (some (.ident ⟨.IDENT, [107]⟩))))
+     [some (.intLit ⟨.INT, [51]⟩)])]
+
+/-- maps, lambdas and the open-ended slice are in the fragment, rendered `m = { "k" : x => { x + 1 } , 2 : ( a , b ) => { a [ b : ] } } m . k ( 3 )` -/
+example : fragProg false false exMap = true ∧ fragProg true false exMap = true ∧
+    (progToks false false exMap).map (·.type) =
+    [.IDENT, .ASSIGN, .LBRACE, .STRING, .COLON, .IDENT, .LAMBDA, .LBRACE, .IDENT, .PLUS, .INT, .RBRACE, .COMMA,
+     .INT, .COLON, .LPAREN, .IDENT, .COMMA, .IDENT, .RPAREN, .LAMBDA, .LBRACE, .IDENT, .LBRACKET, .IDENT, .COLON, .RBRACKET, .RBRACE, .RBRACE,
+     .IDENT, .DOT, .IDENT, .LPAREN, .INT, .RPAREN] := by decide
+
+example : ∃ F, ∀ fuel, F ≤ fuel →
+    parseProgram (streamOf (progToks false false exMap)) fuel = .ok { program := exMap, errors := 0, cont := false } :=
+  roundtrip_streamOf false false exMap (by decide)
 
 /-- the hypotheses are met by non-trivial programs: the expression is in the fragment in every mode … -/
 example : fragProg false false [some exTree] = true ∧ fragProg true false [some exTree] = true
